@@ -70,6 +70,7 @@ type Gen struct {
 	Groups     int
 	NoDeadSIDs bool
 	created    map[string][2]int
+	sentComp   map[int]map[model.CompKey][]byte // last component payload each connection sent per key
 	nCreated   map[int]int
 }
 
@@ -280,6 +281,32 @@ func (g *Gen) Next() Action {
 			r.TypeID, r.Entity = ts[g.R.Intn(len(ts))], es[g.R.Intn(len(es))]
 		}
 		r.Data = []byte(fmt.Sprintf("c%d-%d", c.ID, g.counter))
+		// payloads a client really repeats: what it sent for this key last time
+		// (whoever wrote in between), what the component holds now, nothing
+		key := model.CompKey{Type: r.TypeID, Entity: r.Entity}
+		if g.sentComp == nil {
+			g.sentComp = map[int]map[model.CompKey][]byte{}
+		}
+		if g.sentComp[c.ID] == nil {
+			g.sentComp[c.ID] = map[model.CompKey][]byte{}
+		}
+		if kind != "comp_del" {
+			switch g.R.Intn(10) {
+			case 0, 1:
+				if prev, ok := g.sentComp[c.ID][key]; ok {
+					r.Data = append([]byte(nil), prev...)
+				}
+			case 2:
+				if s != nil {
+					if cur, ok := s.Comps[key]; ok {
+						r.Data = append([]byte(nil), cur...)
+					}
+				}
+			case 3:
+				r.Data = nil
+			}
+			g.sentComp[c.ID][key] = r.Data
+		}
 	case "pong":
 		r.ID = uint32(g.R.Intn(1 << 30))
 	case "signed_latency":
